@@ -348,11 +348,13 @@ class RealFloat(numbers.Rational):
                 other = RealFloat.from_int(other)
             case float():
                 if math.isnan(other) or math.isinf(other):
-                    # Convert self to float and perform float arithmetic
-                    other_sgn = math.copysign(1.0, other) # extract the sign bit
-                    s = self._s != (other_sgn < 0)
-                    res_sgn = -1.0 if s else 1.0
-                    return other * res_sgn
+                    # ``self`` is finite: a NaN propagates, `0 * inf` is a NaN,
+                    # and any other product is an infinity with the XOR of
+                    # the signs
+                    if math.isnan(other) or self._c == 0:
+                        return math.nan
+                    s = self._s != (math.copysign(1.0, other) < 0)
+                    return -math.inf if s else math.inf
                 else:
                     other = RealFloat.from_float(other)
             case Fraction():
